@@ -39,6 +39,9 @@ func (s cliShape) flags() []string {
 		f = append(f, "-mset")
 	case "setkeys":
 		f = append(f, "-setkeys", "id")
+		if s.precision && s.color {
+			f[len(f)-1] = " id , " + "k2" // blanks around the names are trimmed (and a second key)
+		}
 	case "set+setkeys":
 		f = append(f, "-set", "-setkeys=id")
 	}
@@ -88,7 +91,11 @@ func (s cliShape) v2opts() ([]jd.Option, bool) {
 	case "mset":
 		o = append(o, jd.MULTISET)
 	case "setkeys":
-		o = append(o, jd.SetKeys("id"))
+		if s.precision && s.color {
+			o = append(o, jd.SetKeys("id", "k2"))
+		} else {
+			o = append(o, jd.SetKeys("id"))
+		}
 	case "set+setkeys":
 		o = append(o, jd.SET, jd.SetKeys("id"))
 	}
@@ -114,7 +121,11 @@ func (s cliShape) v1md() ([]lib.Metadata, bool) {
 	case "mset":
 		o = append(o, lib.MULTISET)
 	case "setkeys":
-		o = append(o, lib.Setkeys("id"))
+		if s.precision && s.color {
+			o = append(o, lib.Setkeys("id", "k2"))
+		} else {
+			o = append(o, lib.Setkeys("id"))
+		}
 	case "set+setkeys":
 		o = append(o, lib.SET, lib.Setkeys("id"))
 	}
@@ -497,7 +508,7 @@ func init() {
 		Rule: "process runs of the three binaries (v2/jd, jd, jd -v2=false): every combination of {-set,-mset,-setkeys,-set -setkeys} x -yaml x -color x -precision x -f {none,jd,patch,merge} x -o x {file,stdin} (640 diff-mode shapes, 320 patch-mode shapes) x a panel of document pairs, translate modes, -git-diff-driver and error cases; " +
 			"each run is compared with a CLI model that maps the flags to the documented library calls: exit status, stdout bytes, -o file bytes (stdout empty), stdin vs file; the patch-mode leg feeds the library's diff to `jd -p` and requires the output to equal the library rendering and to reproduce b; " +
 			"non-trivial = every run; distinct = distinct (shape, binary, inputs)",
-		Floors: map[string]int{"cli_runs": 5000, "status_0": 500, "status_1": 500, "status_2": 200, "with_-o": 1000, "-o_onto_existing_longer_file": 500, "stdin_vs_file_pairs": 100, "second_input_from_stdin": 1000, "colour_output": 300, "patch_mode_runs": 1000,
+		Floors: map[string]int{"cli_runs": 5000, "status_0": 500, "status_1": 500, "status_2": 200, "with_-o": 1000, "-o_onto_existing_longer_file": 500, "stdin_vs_file_pairs": 100, "setkeys_spellings": 100, "second_input_from_stdin": 1000, "colour_output": 300, "patch_mode_runs": 1000,
 			"pipeline_reproduces_b:jd": 300, "pipeline_reproduces_b:patch": 50, "pipeline_reproduces_b:merge": 50, "pipeline_yaml": 200, "translate_runs": 120, "git_diff_driver_runs": 15, "error_cases": 200},
 		Assumptions: []string{
 			"the CLI model (props/c14.go modelDiff / modelPatch) encodes the documented mapping: flags -> options, -f -> renderer / reader, status 0 no difference / 1 difference / 2 error",
@@ -551,6 +562,65 @@ func init() {
 		},
 	})
 	p.Strata = append(p.Strata, mon.Stratum{
+		Name: "setkeys-flag-parsing",
+		CLI:  true,
+		N:    qt(120, 2400),
+		Run: func(c *mon.Ctx, i int) {
+			// -setkeys takes a comma separated list whose names are trimmed; members share "id" and are told apart by "k2"
+			bin := Binaries[i%3]
+			spelling := []string{"id,k2", "id, k2", " id ,k2 ", "id ,  k2"}[(i/3)%4]
+			mkArr := func(flip bool) []any {
+				arr := []any{}
+				for j := 0; j < 3; j++ {
+					v := float64(c.R.Intn(3))
+					if flip && j == 1 {
+						v = 9
+					}
+					arr = append(arr, map[string]any{"id": 1.0, "k2": []string{"x", "y", "z"}[j], "v": v})
+				}
+				return arr
+			}
+			av, bv := mkArr(false), mkArr(true)
+			gen.Shuffle(c.R, bv)
+			aText, bText := ref.ToJSON(av), ref.ToJSON(bv)
+			c.Input("binary", bin.Name)
+			c.Input("setkeys", spelling)
+			c.Input("a", aText)
+			c.Input("b", bText)
+			c.Nontrivial(joinKey("sk", bin.Name, spelling, aText, bText))
+			var want string
+			var wantStatus int
+			if bin.V1 {
+				d := ReadJ1(aText).Diff(ReadJ1(bText), lib.SET, lib.Setkeys("id", "k2"), lib.SetPrecision(0))
+				want = d.Render()
+				if len(d) > 0 {
+					wantStatus = 1
+				}
+			} else {
+				d := ReadJ(aText).Diff(ReadJ(bText), jd.SET, jd.SetKeys("id", "k2"), jd.Precision(0))
+				want = d.Render()
+				if len(d) > 0 {
+					wantStatus = 1
+				}
+			}
+			res := RunCLI(c, bin, []string{"-set", "-setkeys", spelling, "a.json", "b.json"}, "", map[string]string{"a.json": aText, "b.json": bText})
+			c.Feature("cli_runs")
+			c.Feature("setkeys_spellings")
+			extra := map[string]any{"status": res.Status, "stdout": res.Stdout, "stderr": res.Stderr, "model_status": wantStatus, "model_output": want}
+			if res.Status != wantStatus || res.Stdout != want {
+				c.Violation("-setkeys value is not parsed as a trimmed comma separated list of names", extra)
+				return
+			}
+			// and the printed diff patches a into b
+			rp := RunCLI(c, bin, []string{"-set", "-setkeys", spelling, "-p", "p.diff", "a.json"}, "", map[string]string{"p.diff": res.Stdout})
+			got, err := ref.FromJSON(rp.Stdout)
+			if rp.Status != 0 || err != nil || !ref.Eq(got, bv, ref.Set) {
+				extra["patched"] = rp.Stdout
+				c.Violation("print-then-patch with -setkeys does not reproduce b", extra)
+			}
+		},
+	})
+	p.Strata = append(p.Strata, mon.Stratum{
 		Name: "stdin-equals-file",
 		CLI:  true,
 		N:    qt(150, 3000),
@@ -572,6 +642,10 @@ func init() {
 				flags = append(flags, "-yaml")
 			} else {
 				aText, bText = ref.ToJSON(av)+"\n\n", "  "+ref.ToJSON(bv)+"\n"
+				if (i/6)%3 == 2 {
+					bText = "\xef\xbb\xbf" + ref.ToJSON(bv) // a byte order mark: whatever jd does with it, it must do the same for a file and for stdin
+					c.Feature("bom_input")
+				}
 			}
 			c.Input("binary", bin.Name)
 			c.Input("a", aText)
@@ -585,6 +659,13 @@ func init() {
 			if r1.Status != r2.Status || r1.Stdout != r2.Stdout {
 				c.Violation("reading the second input from stdin is not equivalent to naming a file (diff mode)",
 					map[string]any{"file_status": r1.Status, "stdin_status": r2.Status, "file_stdout": r1.Stdout, "stdin_stdout": r2.Stdout})
+				return
+			}
+			if _, lerr := jd.ReadJsonString(bText); !yaml && lerr != nil {
+				// the library rejects this text: so must the CLI, in both forms
+				if r1.Status != 2 {
+					c.Violation(fmt.Sprintf("the library rejects the second input but the CLI exited %d", r1.Status), map[string]any{"stdout": r1.Stdout, "stderr": r1.Stderr})
+				}
 				return
 			}
 			if r1.Status > 1 {
@@ -765,7 +846,11 @@ func init() {
 			case 6:
 				check([]string{"-f", "nosuchformat", "a.json", "b.json"}, "", map[string]string{"a.json": aText, "b.json": bText}, 2, "", "bad format name")
 			case 7:
-				check([]string{"a.json", "b.json"}, "", map[string]string{"a.json": aText + "}", "b.json": bText}, 2, "", "bad JSON")
+				if i%2 == 0 {
+					check([]string{"a.json", "b.json"}, "", map[string]string{"a.json": aText + "}", "b.json": bText}, 2, "", "bad JSON")
+				} else {
+					check([]string{"a.json", "b.json"}, "", map[string]string{"a.json": aText + "}", "b.json": aText + "}"}, 2, "", "the same bad JSON on both sides")
+				}
 			case 8:
 				check([]string{"-p", "-t", "jd2patch", "a.json", "b.json"}, "", map[string]string{"a.json": aText, "b.json": bText}, 2, "", "-p with -t")
 			default:
